@@ -506,6 +506,21 @@ struct SackOutcome {
     max_reported: u32,
 }
 
+/// TSN of the serially oldest outstanding chunk. `sent_queue` is ordered by raw
+/// value, which differs from serial order while the queue straddles the 2^32 wrap.
+fn oldest_outstanding_tsn(sent_queue: &BTreeMap<u32, ChunkRecord>) -> Option<u32> {
+    let first = *sent_queue.keys().next()?;
+    let last = *sent_queue.keys().next_back()?;
+    if last.wrapping_sub(first) < (1 << 31) {
+        return Some(first);
+    }
+    // Straddling the wrap: the oldest chunk is the first key in the upper half.
+    sent_queue
+        .range(first.wrapping_add(1 << 31)..)
+        .next()
+        .map(|(&tsn, _)| tsn)
+}
+
 fn apply_sack_to_sent_queue(
     sent_queue: &mut BTreeMap<u32, ChunkRecord>,
     cumulative_tsn_ack: u32,
@@ -514,10 +529,10 @@ fn apply_sack_to_sent_queue(
     count_missing_reports: bool,
     max_tsn_retransmits: u32,
 ) -> SackOutcome {
-    let before_head = sent_queue.keys().next().cloned();
+    let before_head = oldest_outstanding_tsn(sent_queue);
 
     // 0. Filter out late SACKs
-    if let Some(&lowest_tsn) = sent_queue.keys().next()
+    if let Some(lowest_tsn) = before_head
         && (cumulative_tsn_ack.wrapping_sub(lowest_tsn.wrapping_sub(1)) as i32) < 0
     {
         // This SACK is even older than our earliest outstanding TSN,
@@ -697,7 +712,7 @@ fn apply_sack_to_sent_queue(
     }
     outcome.retransmit = to_retransmit;
 
-    let after_head = sent_queue.keys().next().cloned();
+    let after_head = oldest_outstanding_tsn(sent_queue);
     outcome.head_moved = before_head != after_head;
 
     if !outcome.retransmit.is_empty() {
